@@ -4,7 +4,7 @@
 use crate::util::{Rng, guarded};
 use poulpy_ckks::encoding::reim::Encoder;
 use poulpy_ckks::layouts::ciphertext::{CKKSCiphertext, CKKSMaintainOps};
-use poulpy_ckks::layouts::plaintext::{CKKSPlaintextVecRnx, CKKSPlaintextCstRnx, alloc_pt_vec_znx, CKKSPlaintextConversion};
+use poulpy_ckks::layouts::plaintext::{CKKSPlaintextVecRnx, CKKSPlaintextCstRnx, CKKSConstPlaintextConversion, alloc_pt_vec_znx, CKKSPlaintextConversion};
 use poulpy_ckks::leveled::api::*;
 use poulpy_ckks::{CKKSCompositionError, CKKSInfos, CKKSMeta};
 use poulpy_core::api::*;
@@ -204,7 +204,7 @@ macro_rules! ckks_backend {
                                         }
                                     }
                                 }
-                                "add_ptz_into" | "sub_ptz_into" | "add_ptz_assign" | "sub_ptz_assign" | "mul_ptz_into" => {
+                                "add_ptz_into" | "sub_ptz_into" | "add_ptz_assign" | "sub_ptz_assign" | "mul_ptz_into" | "mul_ptz_assign" | "mul_add_ptz" | "mul_sub_ptz" => {
                                     // the plaintext is converted to limb form in its OWN radix pb first
                                     let pb = gu(st, "pb", b as u64) as u32;
                                     let w = &vecs[pvec];
@@ -221,7 +221,15 @@ macro_rules! ckks_backend {
                                         "sub_ptz_into" => { newref = comb(&|p, q| (p.0 - q.0, p.1 - q.1), &src); into!(|dst: &mut CKKSCiphertext<Vec<u8>>| m.ckks_sub_pt_vec_znx_into(dst, x, &pt_znx, sref)) }
                                         "add_ptz_assign" => { newref = comb(&|p, q| (p.0 + q.0, p.1 + q.1), &src); into!(|dst: &mut CKKSCiphertext<Vec<u8>>| m.ckks_add_pt_vec_znx_assign(dst, &pt_znx, sref)) }
                                         "sub_ptz_assign" => { newref = comb(&|p, q| (p.0 - q.0, p.1 - q.1), &src); into!(|dst: &mut CKKSCiphertext<Vec<u8>>| m.ckks_sub_pt_vec_znx_assign(dst, &pt_znx, sref)) }
-                                        _ => { newref = comb(&|p, q| (p.0 * q.0 - p.1 * q.1, p.0 * q.1 + p.1 * q.0), &src); into!(|dst: &mut CKKSCiphertext<Vec<u8>>| m.ckks_mul_pt_vec_znx_into(dst, x, &pt_znx, sref)) }
+                                        "mul_ptz_into" => { newref = comb(&|p, q| (p.0 * q.0 - p.1 * q.1, p.0 * q.1 + p.1 * q.0), &src); into!(|dst: &mut CKKSCiphertext<Vec<u8>>| m.ckks_mul_pt_vec_znx_into(dst, x, &pt_znx, sref)) }
+                                        "mul_ptz_assign" => { newref = comb(&|p, q| (p.0 * q.0 - p.1 * q.1, p.0 * q.1 + p.1 * q.0), &src); into!(|dst: &mut CKKSCiphertext<Vec<u8>>| m.ckks_mul_pt_vec_znx_assign(dst, &pt_znx, sref)) }
+                                        _ => {
+                                            // dst (+-)= a * pt (limb form)
+                                            let prod = comb(&|p, q| (p.0 * q.0 - p.1 * q.1, p.0 * q.1 + p.1 * q.0), &va);
+                                            let sgn = if op == "mul_add_ptz" { 1.0 } else { -1.0 };
+                                            newref = match (fd.as_ref(), prod.as_ref()) { (Some(dv), Some(pv)) => Some(((0..dv.0.len()).map(|i| dv.0[i] + sgn * pv.0[i]).collect(), (0..dv.0.len()).map(|i| dv.1[i] + sgn * pv.1[i]).collect())), _ => None };
+                                            if op == "mul_add_ptz" { into!(|dst: &mut CKKSCiphertext<Vec<u8>>| m.ckks_mul_add_pt_vec_znx_into(dst, x, &pt_znx, sref)) } else { into!(|dst: &mut CKKSCiphertext<Vec<u8>>| m.ckks_mul_sub_pt_vec_znx_into(dst, x, &pt_znx, sref)) }
+                                        }
                                     }
                                 }
                                 "add_ptc_into" | "sub_ptc_into" | "add_ptc_assign" | "sub_ptc_assign" | "mul_ptc_into" | "mul_ptc_assign" | "mul_add_ptc" | "mul_sub_ptc" => {
@@ -246,6 +254,104 @@ macro_rules! ckks_backend {
                                             if op == "mul_add_ptc" { into!(|dst: &mut CKKSCiphertext<Vec<u8>>| m.ckks_mul_add_pt_const_rnx_into(dst, x, &cr, pprec, sref)) } else { into!(|dst: &mut CKKSCiphertext<Vec<u8>>| m.ckks_mul_sub_pt_const_rnx_into(dst, x, &cr, pprec, sref)) }
                                         }
                                     }
+                                }
+                                "add_ptcz_into" | "sub_ptcz_into" | "add_ptcz_assign" | "sub_ptcz_assign" | "mul_ptcz_into" | "mul_ptcz_assign" | "mul_add_ptcz" | "mul_sub_ptcz" => {
+                                    // constants given in limb form: for add / sub the digits go straight into the body, so the caller encodes them
+                                    // at the destination's budget after the move (kz = 1: one limb above it, which the library must refuse);
+                                    // for products the natural encoding of the precision is used
+                                    let cr = CKKSPlaintextCstRnx::<f64>::new(cst.0, cst.1);
+                                    let w = (cst.0.unwrap_or(0.0), cst.1.unwrap_or(0.0));
+                                    let kz = gu(st, "kz", 0) as usize;
+                                    let dmaxk = regs[d].as_ref().map(|r| r.max_k().0 as usize).unwrap_or(0);
+                                    let addsub = op.starts_with("add_") || op.starts_with("sub_");
+                                    let off = if op.ends_with("_into") { (x.log_delta() + x.log_budget()).saturating_sub(dmaxk) } else { 0 };
+                                    let lb1 = x.log_budget().saturating_sub(off);
+                                    let cz = if addsub { cr.to_znx_at_k(Base2K(b), lb1 + pprec.log_delta + kz * b as usize, pprec.log_delta)? } else { cr.to_znx(Base2K(b), pprec)? };
+                                    let src = if op.ends_with("_assign") { fd.clone() } else { va.clone() };
+                                    let comb = |f: &dyn Fn((f64, f64), (f64, f64)) -> (f64, f64), v: &Option<Cx>| -> Option<Cx> {
+                                        v.as_ref().map(|v| { let p: Vec<(f64, f64)> = (0..v.0.len()).map(|i| f((v.0[i], v.1[i]), w)).collect(); (p.iter().map(|t| t.0).collect(), p.iter().map(|t| t.1).collect()) })
+                                    };
+                                    let cmul = |p: (f64, f64), q: (f64, f64)| (p.0 * q.0 - p.1 * q.1, p.0 * q.1 + p.1 * q.0);
+                                    match op.as_str() {
+                                        "add_ptcz_into" => { newref = comb(&|p, q| (p.0 + q.0, p.1 + q.1), &src); into!(|dst: &mut CKKSCiphertext<Vec<u8>>| m.ckks_add_pt_const_znx_into(dst, x, &cz, sref)) }
+                                        "sub_ptcz_into" => { newref = comb(&|p, q| (p.0 - q.0, p.1 - q.1), &src); into!(|dst: &mut CKKSCiphertext<Vec<u8>>| m.ckks_sub_pt_const_znx_into(dst, x, &cz, sref)) }
+                                        "add_ptcz_assign" => { newref = comb(&|p, q| (p.0 + q.0, p.1 + q.1), &src); into!(|dst: &mut CKKSCiphertext<Vec<u8>>| m.ckks_add_pt_const_znx_assign(dst, &cz, sref)) }
+                                        "sub_ptcz_assign" => { newref = comb(&|p, q| (p.0 - q.0, p.1 - q.1), &src); into!(|dst: &mut CKKSCiphertext<Vec<u8>>| m.ckks_sub_pt_const_znx_assign(dst, &cz, sref)) }
+                                        "mul_ptcz_into" => { newref = comb(&cmul, &src); into!(|dst: &mut CKKSCiphertext<Vec<u8>>| m.ckks_mul_pt_const_znx_into(dst, x, &cz, sref)) }
+                                        "mul_ptcz_assign" => { newref = comb(&cmul, &src); into!(|dst: &mut CKKSCiphertext<Vec<u8>>| m.ckks_mul_pt_const_znx_assign(dst, &cz, sref)) }
+                                        _ => {
+                                            let prod = comb(&cmul, &va);
+                                            let sgn = if op == "mul_add_ptcz" { 1.0 } else { -1.0 };
+                                            newref = match (fd.as_ref(), prod.as_ref()) { (Some(dv), Some(pv)) => Some(((0..dv.0.len()).map(|i| dv.0[i] + sgn * pv.0[i]).collect(), (0..dv.0.len()).map(|i| dv.1[i] + sgn * pv.1[i]).collect())), _ => None };
+                                            if op == "mul_add_ptcz" { into!(|dst: &mut CKKSCiphertext<Vec<u8>>| m.ckks_mul_add_pt_const_znx_into(dst, x, &cz, sref)) } else { into!(|dst: &mut CKKSCiphertext<Vec<u8>>| m.ckks_mul_sub_pt_const_znx_into(dst, x, &cz, sref)) }
+                                        }
+                                    }
+                                }
+                                "dot_ptv" | "dot_ptz" | "dot_ptc" | "dot_ptcz" => {
+                                    // <(a, c), (w0, w1)> with plaintext weights: test vectors (rnx / limb form) or constants (rnx / limb form); bits = terms
+                                    let cmul = |p: (f64, f64), q: (f64, f64)| (p.0 * q.0 - p.1 * q.1, p.0 * q.1 + p.1 * q.0);
+                                    let terms = bits.clamp(1, 2);
+                                    let z = rc.as_ref();
+                                    let cts: Vec<&CKKSCiphertext<Vec<u8>>> = if terms == 2 { vec![x, z.unwrap()] } else { vec![x] };
+                                    let isc = op == "dot_ptc" || op == "dot_ptcz";
+                                    let c0 = cst;
+                                    let c1 = csts[(gu(st, "cst", 0) as usize + 1) % 4];
+                                    let wv = |k: usize, i: usize| -> (f64, f64) {
+                                        if isc { let c = if k == 0 { c0 } else { c1 }; (c.0.unwrap_or(0.0), c.1.unwrap_or(0.0)) } else { let v = &vecs[(pvec + k) % 2]; (v.0[i], v.1[i]) }
+                                    };
+                                    newref = match (va.as_ref(), if terms == 2 { fc.as_ref() } else { va.as_ref() }) {
+                                        (Some(a0), Some(a1)) => {
+                                            let v: Vec<(f64, f64)> = (0..a0.0.len()).map(|i| { let p = cmul((a0.0[i], a0.1[i]), wv(0, i)); if terms == 2 { let q = cmul((a1.0[i], a1.1[i]), wv(1, i)); (p.0 + q.0, p.1 + q.1) } else { p } }).collect();
+                                            Some((v.iter().map(|t| t.0).collect(), v.iter().map(|t| t.1).collect()))
+                                        }
+                                        _ => None,
+                                    };
+                                    if isc {
+                                        let r0 = CKKSPlaintextCstRnx::<f64>::new(c0.0, c0.1);
+                                        let r1 = CKKSPlaintextCstRnx::<f64>::new(c1.0, c1.1);
+                                        if op == "dot_ptc" {
+                                            let ws: Vec<&CKKSPlaintextCstRnx<f64>> = if terms == 2 { vec![&r0, &r1] } else { vec![&r0] };
+                                            into!(|dst: &mut CKKSCiphertext<Vec<u8>>| m.ckks_dot_product_pt_const_rnx(dst, &cts, &ws, pprec, sref))
+                                        } else {
+                                            let (z0, z1) = (r0.to_znx(Base2K(b), pprec)?, r1.to_znx(Base2K(b), pprec)?);
+                                            let ws = if terms == 2 { vec![&z0, &z1] } else { vec![&z0] };
+                                            into!(|dst: &mut CKKSCiphertext<Vec<u8>>| m.ckks_dot_product_pt_const_znx(dst, &cts, &ws, sref))
+                                        }
+                                    } else {
+                                        let mut p0 = CKKSPlaintextVecRnx::<f64>::alloc(n).unwrap();
+                                        let mut p1 = CKKSPlaintextVecRnx::<f64>::alloc(n).unwrap();
+                                        encoder.encode_reim(&mut p0, &vecs[pvec].0, &vecs[pvec].1)?;
+                                        encoder.encode_reim(&mut p1, &vecs[(pvec + 1) % 2].0, &vecs[(pvec + 1) % 2].1)?;
+                                        if op == "dot_ptv" {
+                                            let ws: Vec<&CKKSPlaintextVecRnx<f64>> = if terms == 2 { vec![&p0, &p1] } else { vec![&p0] };
+                                            into!(|dst: &mut CKKSCiphertext<Vec<u8>>| m.ckks_dot_product_pt_vec_rnx(dst, &cts, &ws, pprec, sref))
+                                        } else {
+                                            let pb = gu(st, "pb", b as u64) as u32;
+                                            let mut z0 = alloc_pt_vec_znx(Degree(n as u32), Base2K(pb), pprec);
+                                            let mut z1 = alloc_pt_vec_znx(Degree(n as u32), Base2K(pb), pprec);
+                                            p0.to_znx(&mut z0)?;
+                                            p1.to_znx(&mut z1)?;
+                                            let ws = if terms == 2 { vec![&z0, &z1] } else { vec![&z0] };
+                                            into!(|dst: &mut CKKSCiphertext<Vec<u8>>| m.ckks_dot_product_pt_vec_znx(dst, &cts, &ws, sref))
+                                        }
+                                    }
+                                }
+                                "align" => {
+                                    // brings registers a and b to the same budget by rescaling the one that has more; d names the register observed
+                                    // (the one the specification expects to change); the other one must come back bit for bit
+                                    let other = if d == a { bb } else { a };
+                                    let before = if other == a { ra.as_ref().map(|r| (r.data().data.clone(), r.meta())) } else { rb.as_ref().map(|r| (r.data().data.clone(), r.meta())) };
+                                    let mut ta = regs[a].take().expect("harness: operand a not allocated");
+                                    let mut tb = regs[bb].take().expect("harness: operand b not allocated");
+                                    let r = m.ckks_align_assign(&mut ta, &mut tb, sref);
+                                    regs[a] = Some(ta);
+                                    regs[bb] = Some(tb);
+                                    newref = fd.clone();
+                                    let after = regs[other].as_ref().map(|r| (r.data().data.clone(), r.meta()));
+                                    if r.is_ok() && before != after {
+                                        anyhow::bail!("align changed the operand that already had the smaller budget")
+                                    }
+                                    r
                                 }
                                 "mul_add_ct" | "mul_sub_ct" => {
                                     let prod = bin(&|p, q| (p.0 * q.0 - p.1 * q.1, p.0 * q.1 + p.1 * q.0));
